@@ -1,6 +1,7 @@
 package gen
 
 import (
+	"fmt"
 	"math/rand/v2"
 	"strings"
 )
@@ -22,7 +23,7 @@ var setterPools = map[string][]string{
 	"pathname": {"", "/", "//", "///", "a", "/a", "a/b", "/a/b/", "/a//b", "\\a", "/a\\b", ".", "..", "/.", "/..", "/./", "/../", "/a/./b", "/a/../b", "/a/..", "/%2e", "/%2E%2e", "/.%2e/x", "//.", "//..", "/.//x", "/..//x", "//x", "?", "#", "/a?b", "/a#b", "?a", "#a",
 		"C|", "/C|", "/C|/x", "C:", "/c:/..", "/C|/../x", "C|/x", " ", "/ ", "a b", "/é", "/🌈", "%", "/%4", "/%zz", "/%41", "/%00", "'\"<>`{}|^", "\t/a", "/a\n", "\x00", "\x7f", "\xff", "/\xc3", "a:b", "/a:b", "@", "[x]", ";a=b"},
 	"search": {"", "?", "??", "a", "?a", "a=b", "?a=b&c=d", "a&b", "&", "=", "&&", "a=", "=b", "a==b", "+", "a+b", "%2B", "1%2B1", "%26", "%3D", "%", "%4", "%zz", "'", "\"", "<>", "`{}|^", " ", "  ", "a b", "#", "a#b", "?#", "/", "\\", "é", "🌈", "\x00", "\x7f", "\t", "a\nb", ";", "a[]=1", "%41", "%C3%A9", "%ff", "\xff", "a=b ", " a=b", "a=1&a=2&b=3", "b=1&a=2&a=1", "a&a&a", "%61=1&a=2"},
-	"hash": {"", "#", "##", "a", "#a", "a#b", "#a#b", " ", "  ", "a b", "'", "\"", "<>", "`", "{}|^", "?", "/", "\\", "%", "%4", "%zz", "%41", "%00", "é", "🌈", "\x00", "\x7f", "\t", "a\nb", "\xff", "a ", " a"},
+	"hash":   {"", "#", "##", "a", "#a", "a#b", "#a#b", " ", "  ", "a b", "'", "\"", "<>", "`", "{}|^", "?", "/", "\\", "%", "%4", "%zz", "%41", "%00", "é", "🌈", "\x00", "\x7f", "\t", "a\nb", "\xff", "a ", " a"},
 }
 
 // SetterValue draws a value for the named setter: WPT values, the per-setter pool,
@@ -121,11 +122,11 @@ var StartPool = []string{
 	"ws://h/", "wss://h:444/chat", "https://h/?#", "http://h/a%20b?c%20d#e%20f",
 	"file:///C:/a/b", "file://host/x", "file:///", "file:///C|/x", "file:", "file://h/?q#f",
 	"a://h/p?q#f", "a://u:p@h:1/p", "a://h", "a://", "a:///p", "a://[::1]/",
-	"a:/p/q", "a:/", "a:/.//p", "a:p", "a:p  ?q#f", "a:p  ", "mailto:x@y", "data:text/plain,x y  #f",
+	"a:/p/q", "a:/", "a:/.//p", "a:p", "a:p  ?q#f", "a:p  ", "a:p  ?", "a:p  ?#", "mailto:x@y", "data:text/plain,x y  #f",
 }
 
 // SPNames are names used by the SearchParams workloads: mostly delimiters.
-var spAtoms = []string{"a", "b", "c", "aa", "ab", "A", "", "&", "=", "+", "%", "#", "?", " ", "%2B", "%26", "%3D", "%00", "%41", "%zz", "é", "ü", "🌈", "ﬃ", "\uffff", "\U00010000", "\xff", "'", "\"", "<", ">", "/", ";", "~", "*", "-", "_", ".", "!", "(", ")", "\x00", "\x7f", "\n"}
+var spAtoms = []string{"a", "b", "c", "aa", "ab", "A", "", "&", "=", "+", "%", "#", "?", " ", "%2B", "%26", "%3D", "%00", "%41", "%zz", "é", "ü", "🌈", "ﬃ", "\uffff", "\U00010000", "\xff", "'", "\"", "<", ">", "/", ";", "~", "*", "-", "_", ".", "!", "(", ")", "\x00", "\x7f", "\n", "\ufeff", "\ufeff\ufeff"}
 
 // SPString draws a parameter name or value.
 func SPString(r *rand.Rand) string {
@@ -149,8 +150,20 @@ func SPName(r *rand.Rand) string {
 }
 
 // QueryString draws a raw query string for the urlencoded parser.
+// ThresholdSizes: list sizes just beyond plausible "small / large" cut-offs in an implementation.
+var ThresholdSizes = []int{9, 17, 33, 65, 129, 257, 1001, 1030}
+
 func QueryString(r *rand.Rand) string {
 	n := r.IntN(6)
+	if r.IntN(150) == 0 {
+		// many pieces, few distinct names, not sorted
+		k := Pick(r, ThresholdSizes) + r.IntN(4)
+		var sb strings.Builder
+		for i := 0; i < k; i++ {
+			fmt.Fprintf(&sb, "%s=%d&", Pick(r, []string{"b", "a", "c", "a", "zz", "é"}), (i*7919)%1000)
+		}
+		return sb.String()
+	}
 	var sb strings.Builder
 	for i := 0; i < n; i++ {
 		if i > 0 || r.IntN(6) == 0 {
@@ -176,7 +189,7 @@ func qsAtom(r *rand.Rand) string {
 	n := 1 + r.IntN(3)
 	var sb strings.Builder
 	for i := 0; i < n; i++ {
-		sb.WriteString(Pick(r, []string{"a", "b", "c", "1", "+", "%2B", "%26", "%3D", "%20", "%", "%4", "%zz", "%41", "%61", "%C3%A9", "%ff", "%00", "é", "🌈", " ", "'", "\"", "<", "~", "*", "-", ".", "_", "!", "(", ")", "/", "?", ":", "@", "$", ",", "\xff", ""}))
+		sb.WriteString(Pick(r, []string{"a", "b", "c", "1", "+", "%2B", "%26", "%3D", "%20", "%", "%4", "%zz", "%41", "%61", "%C3%A9", "%ff", "%00", "é", "🌈", " ", "'", "\"", "<", "~", "*", "-", ".", "_", "!", "(", ")", "/", "?", ":", "@", "$", ",", "\xff", "", "\ufeff", "%EF%BB%BF", "\ufeff\ufeff", "%EF%BB%BF%EF%BB%BF"}))
 	}
 	return sb.String()
 }
